@@ -152,4 +152,201 @@ theorem skIntoBytes_expandPrivate (m : Mode) (p : ParamSet) (skb : List Nat) (hb
     rw [u1, ok_bind, u2, ok_bind, u0, ok_bind]
     exact skEncode_skDecode m p skb hb he bl hbl hlen hcfg s hr
 
+/-! ### public keys -/
+
+/-- a `mapM` whose `i`-th step is known: the result is the list of the known outputs -/
+theorem mapM_stage {α β} (f : α → M β) (g : Nat → β) : ∀ (l : List α) (s : Nat), (∀ i (hi : i < l.length), f l[i] = .ok (g (s + i))) →
+    l.mapM f = .ok ((List.range' s l.length).map g) := by
+  intro l
+  induction l with
+  | nil => intro s _; simp [pure_eq]
+  | cons a as ih =>
+    intro s h
+    have h0 := h 0 (by simp)
+    simp only [List.getElem_cons_zero, Nat.add_zero] at h0
+    have := ih (s + 1) (fun i hi => by
+      have := h (i + 1) (by simp; omega)
+      simp only [List.getElem_cons_succ] at this
+      rw [show s + 1 + i = s + (i + 1) by omega]; exact this)
+    rw [List.mapM_cons, h0, ok_bind, this, ok_bind, pure_eq, List.length_cons, List.range'_succ, List.map_cons]
+
+theorem stage_get {β} (g : Nat → β) (n i : Nat) (h : i < ((List.range' 0 n).map g).length) : ((List.range' 0 n).map g)[i] = g i := by
+  rw [List.getElem_map, List.getElem_range']; simp
+
+/-- the verifier precompute of `t1`, then `pk.into_bytes`' arithmetic, gives `t1` back -/
+theorem precompute_round (m : Mode) (t1 : List Poly) (ht : ∀ q ∈ t1, q.length = 256 ∧ ∀ x ∈ q, 0 ≤ x ∧ x ≤ 1023) :
+    ∃ r a b, precomputeT1 m t1 = .ok r ∧ r.mapM (fun q : Poly => q.mapM (mont_reduce m)) = .ok a ∧ invNtt m a = .ok b ∧
+      b.map (fun q => q.map (fun x => x / 2 ^ D.toNat)) = t1 := by
+  have hex : ∀ i : Nat, ∃ tup : Poly × Poly × Poly × Poly × Poly × Poly, ∀ (hi : i < t1.length),
+      nttPoly m t1[i] = .ok tup.1 ∧ tup.1.mapM (to_mont_coeff m) = .ok tup.2.1 ∧
+      tup.2.1.mapM (fun x => mont_reduce m (IT.i64.wrap (x * 2 ^ D.toNat))) = .ok tup.2.2.1 ∧ tup.2.2.1.mapM (to_mont_coeff m) = .ok tup.2.2.2.1 ∧
+      tup.2.2.2.1.mapM (mont_reduce m) = .ok tup.2.2.2.2.1 ∧ invNttPoly m tup.2.2.2.2.1 = .ok tup.2.2.2.2.2 ∧
+      tup.2.2.2.2.2.map (fun x => x / 2 ^ D.toNat) = t1[i] := by
+    intro i
+    by_cases hi : i < t1.length
+    · obtain ⟨a1, a2, a3, a4, a5, a6, h⟩ := pk_poly_round m t1[i] (ht _ (List.getElem_mem _)).1 (ht _ (List.getElem_mem _)).2
+      exact ⟨(a1, a2, a3, a4, a5, a6), fun _ => h⟩
+    · exact ⟨([], [], [], [], [], []), fun h => absurd h hi⟩
+  obtain ⟨G, hG⟩ := Classical.axiomOfChoice hex
+  let n := t1.length
+  have s1 : t1.mapM (nttPoly m) = .ok ((List.range' 0 n).map (fun i => (G i).1)) :=
+    mapM_stage _ _ t1 0 (fun i hi => by rw [Nat.zero_add]; exact (hG i hi).1)
+  have s2 : ((List.range' 0 n).map (fun i => (G i).1)).mapM (fun q : Poly => q.mapM (to_mont_coeff m)) = .ok ((List.range' 0 n).map (fun i => (G i).2.1)) := by
+    have := mapM_stage (fun q : Poly => q.mapM (to_mont_coeff m)) (fun i => (G i).2.1) ((List.range' 0 n).map (fun i => (G i).1)) 0
+      (fun i hi => by
+        rw [Nat.zero_add, stage_get]
+        have hi' : i < t1.length := by simpa using hi
+        exact (hG i hi').2.1)
+    simpa using this
+  have s3 : ((List.range' 0 n).map (fun i => (G i).2.1)).mapM (fun q : Poly => q.mapM (fun x => mont_reduce m (IT.i64.wrap (x * 2 ^ D.toNat)))) =
+      .ok ((List.range' 0 n).map (fun i => (G i).2.2.1)) := by
+    have := mapM_stage (fun q : Poly => q.mapM (fun x => mont_reduce m (IT.i64.wrap (x * 2 ^ D.toNat)))) (fun i => (G i).2.2.1) ((List.range' 0 n).map (fun i => (G i).2.1)) 0
+      (fun i hi => by
+        rw [Nat.zero_add, stage_get]
+        have hi' : i < t1.length := by simpa using hi
+        exact (hG i hi').2.2.1)
+    simpa using this
+  have s4 : ((List.range' 0 n).map (fun i => (G i).2.2.1)).mapM (fun q : Poly => q.mapM (to_mont_coeff m)) = .ok ((List.range' 0 n).map (fun i => (G i).2.2.2.1)) := by
+    have := mapM_stage (fun q : Poly => q.mapM (to_mont_coeff m)) (fun i => (G i).2.2.2.1) ((List.range' 0 n).map (fun i => (G i).2.2.1)) 0
+      (fun i hi => by
+        rw [Nat.zero_add, stage_get]
+        have hi' : i < t1.length := by simpa using hi
+        exact (hG i hi').2.2.2.1)
+    simpa using this
+  have s5 : ((List.range' 0 n).map (fun i => (G i).2.2.2.1)).mapM (fun q : Poly => q.mapM (mont_reduce m)) = .ok ((List.range' 0 n).map (fun i => (G i).2.2.2.2.1)) := by
+    have := mapM_stage (fun q : Poly => q.mapM (mont_reduce m)) (fun i => (G i).2.2.2.2.1) ((List.range' 0 n).map (fun i => (G i).2.2.2.1)) 0
+      (fun i hi => by
+        rw [Nat.zero_add, stage_get]
+        have hi' : i < t1.length := by simpa using hi
+        exact (hG i hi').2.2.2.2.1)
+    simpa using this
+  have s6 : ((List.range' 0 n).map (fun i => (G i).2.2.2.2.1)).mapM (invNttPoly m) = .ok ((List.range' 0 n).map (fun i => (G i).2.2.2.2.2)) := by
+    have := mapM_stage (invNttPoly m) (fun i => (G i).2.2.2.2.2) ((List.range' 0 n).map (fun i => (G i).2.2.2.2.1)) 0
+      (fun i hi => by
+        rw [Nat.zero_add, stage_get]
+        have hi' : i < t1.length := by simpa using hi
+        exact (hG i hi').2.2.2.2.2.1)
+    simpa using this
+  refine ⟨_, _, _, ?_, s5, s6, ?_⟩
+  · unfold precomputeT1 nttMont ntt toMont
+    rw [s1, ok_bind, s2, ok_bind, s3, ok_bind]
+    exact s4
+  · apply List.ext_getElem (by simp [n])
+    intro i h1 h2
+    rw [List.getElem_map, stage_get]
+    exact (hG i h2).2.2.2.2.2.2
+
+theorem simpleBitPack_simpleBitUnpack (m : Mode) (v : List Nat) (hv : ∀ x ∈ v, x < 256) (hlen : v.length = 320) (w : Poly)
+    (h : simpleBitUnpack m v 1023 = .ok (some w)) : simpleBitPack m w 1023 320 = .ok v := by
+  have hb10 : bitLen m 1023 = .ok 10 := by have := bitLen_1023 m; simpa using this
+  have hb10' : bitLen m (0 + 1023) = .ok 10 := bitLen_1023 m
+  unfold simpleBitUnpack at h
+  obtain ⟨_, _, h⟩ := bind_ok_inv h
+  obtain ⟨_, _, h⟩ := bind_ok_inv h
+  have hr := Props.C10.bitUnpack_accepts_only_in_range m v 0 1023 w (by omega) (by omega) h
+  have hp := bitPack_bitUnpack m v 0 1023 10 (by omega) (by omega) hb10' (by omega) (by decide) hv hlen w h
+  unfold simpleBitPack
+  rw [dassert_dec m _ _ (by decide), ok_bind, dassertM_ok m _ _ (isInRange_true m w 0 1023 (by omega) hr), ok_bind]
+  simp only [hb10, ok_bind, pure_eq]
+  rw [dassertM_ok m _ _ (by rfl), ok_bind]
+  exact hp
+
+theorem pkDecode_go_repack (m : Mode) (pk : List Nat) (hb : ∀ x ∈ pk, x < 256) :
+    ∀ (is : List Nat) (acc t1 : List Poly), (∀ i ∈ is, 32 + (i + 1) * 320 ≤ pk.length) →
+      pkDecode.go m pk is acc = .ok (some t1) →
+      ∃ tn, t1 = acc.reverse ++ tn ∧ tn.length = is.length ∧
+        tn.mapM (fun t => simpleBitPack m t 1023 320) = .ok (is.map (fun i => (pk.drop (32 + i * 320)).take 320)) := by
+  have hq : blqd = 10 := by decide
+  intro is
+  induction is with
+  | nil =>
+    intro acc t1 _ h
+    simp only [pkDecode.go, pure_eq] at h
+    have := ok_inj h
+    simp only [Option.some.injEq] at this
+    exact ⟨[], by simp [this], rfl, by simp [pure_eq]⟩
+  | cons i is ih =>
+    intro acc t1 hlen h
+    have hi := hlen i (List.mem_cons_self ..)
+    unfold pkDecode.go at h
+    rw [hq] at h
+    have hs := slice_ok "encodings.rs:pk_decode:pk[..]" pk (32 + 32 * i * 10) (32 + 32 * (i + 1) * 10) (by constructor <;> omega)
+    have e1 : 32 + 32 * (i + 1) * 10 - (32 + 32 * i * 10) = 320 := by omega
+    have e2 : 32 + 32 * i * 10 = 32 + i * 320 := by omega
+    have hs' : slice "encodings.rs:pk_decode:pk[..]" pk (32 + 32 * i * 10) (32 + 32 * (i + 1) * 10) = .ok ((pk.drop (32 + i * 320)).take 320) := by
+      rw [hs, e1, e2]
+    rw [hs', ok_bind, show ((2:Int) ^ 10 - 1) = 1023 by decide] at h
+    obtain ⟨r, hr, h⟩ := bind_ok_inv h
+    cases r with
+    | none => rw [pure_eq] at h; have := ok_inj h; simp at this
+    | some t =>
+      replace h : pkDecode.go m pk is (t :: acc) = .ok (some t1) := h
+      obtain ⟨tn, f1, f2, f3⟩ := ih (t :: acc) t1 (fun j hj => hlen j (List.mem_cons_of_mem _ hj)) h
+      have hsl : ((pk.drop (32 + i * 320)).take 320).length = 320 := by rw [List.length_take, List.length_drop]; omega
+      have hp := simpleBitPack_simpleBitUnpack m _ (fun x hx => hb x (mem_slice _ _ _ _ hx)) hsl t hr
+      refine ⟨t :: tn, by rw [f1]; simp, by simp [f2], ?_⟩
+      rw [List.mapM_cons, hp, ok_bind, f3, ok_bind, pure_eq]
+      rfl
+
+/-- **`pk_encode ∘ pk_decode = id`** -/
+theorem pkEncode_pkDecode (m : Mode) (p : ParamSet) (pkb : List Nat) (hb : ∀ x ∈ pkb, x < 256)
+    (hlen : pkb.length = 32 + 32 * p.k * blqd) (hcfg : p.pkLen = 32 + 32 * p.k * blqd) (d : PkParts)
+    (hdec : pkDecode m p pkb = .ok (some d)) : pkEncode m p d.rho d.t1 = .ok pkb := by
+  have hq : blqd = 10 := by decide
+  rw [hq] at hlen hcfg
+  obtain ⟨d', hd', _, hk, ht⟩ := pkDecode_total m p pkb hb (by rw [hq]; exact hlen) (by rw [hq]; exact hcfg)
+  rw [hdec] at hd'
+  have hdd := ok_inj hd'
+  simp only [Option.some.injEq] at hdd
+  subst hdd
+  unfold pkDecode at hdec
+  obtain ⟨_, _, hdec⟩ := bind_ok_inv hdec
+  obtain ⟨_, _, hdec⟩ := bind_ok_inv hdec
+  rw [slice_ok _ pkb 0 32 (by omega), ok_bind] at hdec
+  obtain ⟨r, hr, hdec⟩ := bind_ok_inv hdec
+  cases r with
+  | none => rw [pure_eq] at hdec; have := ok_inj hdec; simp at this
+  | some t1 =>
+    simp only [] at hdec
+    obtain ⟨_, _, hdec⟩ := bind_ok_inv hdec
+    rw [pure_eq] at hdec
+    have hs := ok_inj hdec
+    simp only [Option.some.injEq] at hs
+    subst hs
+    simp only [] at hk ht ⊢
+    obtain ⟨tn, f1, f2, f3⟩ := pkDecode_go_repack m pkb hb (List.range p.k) [] t1
+      (fun i hi => by
+        have := List.mem_range.mp hi
+        have : (i + 1) * 320 ≤ p.k * 320 := Nat.mul_le_mul_right _ (by omega)
+        omega) hr
+    simp only [List.reverse_nil, List.nil_append] at f1
+    subst f1
+    unfold pkEncode
+    have e1023 : (2:Int) ^ blqd - 1 = 1023 := by rw [hq]; decide
+    rw [e1023, hq, dassertM_ok m _ _ (mapM_isInRange_true m t1 0 1023 (by omega) (fun q hq' c hc => by have := (ht q hq').2 c hc; omega)), ok_bind,
+      dassert_dec m _ _ (by simp [hcfg]), ok_bind]
+    have l32 : ((pkb.drop 0).take (32 - 0)).length = 32 := by rw [List.length_take, List.length_drop]; omega
+    rw [if_neg (by rw [l32]; omega), List.take_of_length_le (by rw [hk]; exact Nat.le_refl _), f3, ok_bind]
+    simp only []
+    rw [flatten_slices pkb 32 320 p.k (by omega), pure_eq]
+    congr 1
+    have hbody : ((pkb.drop 32).take (p.k * 320)).length = p.k * 320 := by rw [List.length_take, List.length_drop]; omega
+    rw [hbody, hcfg, show 32 + 32 * p.k * 10 - 32 - p.k * 320 = 0 by omega]
+    simp only [List.replicate_zero, List.append_nil, List.drop_zero, Nat.sub_zero]
+    have : (pkb.drop 32).take (p.k * 320) = pkb.drop 32 := List.take_of_length_le (by rw [List.length_drop]; omega)
+    rw [this, List.take_append_drop, List.take_of_length_le (by omega)]
+
+/-- **`into_bytes ∘ try_from_bytes = id` for public keys**: every byte string of public-key length is reproduced, byte
+    for byte, by serialising the struct `expand_public` built from it -/
+theorem pkIntoBytes_expandPublic (m : Mode) (O : Oracles) (p : ParamSet) (pkb : List Nat) (hb : ∀ x ∈ pkb, x < 256)
+    (hlen : pkb.length = 32 + 32 * p.k * blqd) (hcfg : p.pkLen = 32 + 32 * p.k * blqd) :
+    ∃ pk, expandPublic m O p pkb = .ok (some pk) ∧ pkIntoBytes m p pk = .ok pkb := by
+  obtain ⟨d, hd, _, hk, ht⟩ := pkDecode_total m p pkb hb hlen hcfg
+  obtain ⟨r, a, b, h1, h2, h3, h4⟩ := precompute_round m d.t1 ht
+  refine ⟨⟨d.rho, O.h pkb 64, r⟩, by simp only [expandPublic, hd, ok_bind, h1, pure_eq], ?_⟩
+  unfold pkIntoBytes
+  simp only []
+  rw [h2, ok_bind, h3, ok_bind, h4]
+  exact pkEncode_pkDecode m p pkb hb hlen hcfg d hd
+
 end Fips204.Impl
